@@ -176,6 +176,24 @@ def case_integer_waveform(ctx, T, k):
         purity.oblige_same_result(ctx, "integer_waveforms_give_the_same_features_as_floats", df_i[col].to_numpy(), df_f[col].to_numpy(), detail={"col": col})
 
 
+def case_pick_maxima(ctx, T, C):
+    """the ranking step on its own: per trace, the reported maximum is exactly the largest absolute sample and its index a
+    position where it is reached (first one) - also when two deflections are almost tied"""
+    import ibldsp.waveforms as w
+    vals, arr = _wave(ctx, 1, T, C)
+    res = ctx.call("pick_maxima", w.pick_maxima, arr)
+    idx, mx = res
+    if not ctx.oblige("pick_maxima_shapes", tuple(np.shape(idx)) == (1, C) and tuple(np.shape(mx)) == (1, C), detail={"shapes": [str(np.shape(idx)), str(np.shape(mx))]}):
+        return
+    for c in range(C):
+        col = [abs(vals[0][t][c]) for t in range(T)]
+        i = _conc(ctx, np.asarray(arrays._plain(idx), dtype=object)[0, c])
+        m_ = np.asarray(arrays._plain(mx), dtype=object)[0, c]
+        ctx.oblige("reported_maximum_is_the_largest_absolute_sample", and_(all_([m_ >= a for a in col]), any_([core.eq(m_, a) for a in col])), detail={"trace": c, "max": m_})
+        ok = 0 <= i < T
+        ctx.oblige("reported_index_is_the_first_position_of_the_maximum", ok and and_(all_([col[i] >= a for a in col]), all_([col[t] < col[i] for t in range(i)])) if ok else False, detail={"trace": c, "index": i})
+
+
 def case_scaling(ctx, T, C, k):
     import ibldsp.waveforms as w
     vals, arr = _wave(ctx, 1, T, C)
@@ -232,6 +250,7 @@ def cases(tier):
     cs.append(Case("laws_nanpad_T4_C1_k1", "case_laws", {"N": 1, "T": 4, "C": 1, "k": 1, "nan_channel": True}, timeout_s=3300, max_paths=200000))
     cs.append(Case("scaling_T4_C1", "case_scaling", {"T": 4, "C": 1, "k": 1}, timeout_s=3300, max_paths=200000, solver_timeout_ms=600000))   # non-linear (value x scale): give the solver room on a loaded machine
     cs.append(Case("channel_swap_T4", "case_channel_swap", {"T": 4 if tier == "quick" else 5, "k": 1}, timeout_s=3300, max_paths=200000))
+    cs.append(Case("pick_maxima_T3_C2", "case_pick_maxima", {"T": 3, "C": 2}, timeout_s=1500))
     cs.append(Case("integer_waveform_T4", "case_integer_waveform", {"T": 4, "k": 1}, timeout_s=3300, max_paths=200000))
     cs.append(Case("batch_T4", "case_batch", {"T": 4, "k": 1}, timeout_s=3300, max_paths=200000))
     cs.append(Case("batch_T3_C2", "case_batch", {"T": 3, "k": 1, "C": 2}, timeout_s=3300, max_paths=200000))
@@ -256,6 +275,19 @@ def replay(case, params, cex):
     m = cex["model"]
     from fractions import Fraction
     F = lambda v: float(Fraction(str(v)))
+    if case.startswith("pick_maxima"):
+        T, C = params["T"], params["C"]
+        x = [[[F(m.get(f"x0_{t}_{c}", 0)) for c in range(C)] for t in range(T)]]
+        return f"""
+import ibldsp.waveforms as w
+x = np.array({x}, dtype=np.float64)
+idx, mx = w.pick_maxima(x.copy())
+a = np.abs(x[0])
+print(idx, mx, a.max(axis=0), a.argmax(axis=0))
+if np.shape(idx) != (1, {C}) or not np.array_equal(np.asarray(mx)[0], a.max(axis=0)): reproduced(f'pick_maxima reports {{np.asarray(mx).tolist()}} for absolute maxima {{a.max(axis=0).tolist()}} (float64 input {{x.tolist()}})')
+if not np.array_equal(np.asarray(idx)[0], a.argmax(axis=0)): reproduced(f'pick_maxima reports positions {{np.asarray(idx).tolist()}}, the maxima are at {{a.argmax(axis=0).tolist()}}')
+not_reproduced()
+"""
     if case.startswith("integer_waveform"):
         T, k = params["T"], params["k"]
         x = [[int(str(m.get(f"x0_{t}_0", 0)))] for t in range(T)]
